@@ -53,6 +53,8 @@ type vfWorldCfg struct {
 	EndSession bool         `json:"end_session"`
 	Templates  []vfTemplate `json:"templates"`
 	RateLimit  int          `json:"rate_limit"`
+	// "" : the provider advertises no revocation endpoint; "ok" / "fail": it does, and answers 200 / 503
+	Revocation string `json:"revocation,omitempty"`
 }
 
 const (
@@ -164,6 +166,7 @@ func vfNewWorld(tb testingTB, cfg vfWorldCfg, nbrowsers int, r *vfRand) *vfWorld
 	w := &vfWorld{tb: tb, cfg: cfg, r: r, in: vfNewIntern(), tokens: map[string]*vfMinted{}, compCache: map[string]string{},
 		tmplUsed: map[string]bool{}}
 	w.prov = vfNewProvider(vfClientID, cfg.EndSession, r.fork(77))
+	w.prov.revocation = cfg.Revocation
 	w.base = time.Now().Truncate(time.Second)
 	w.baseUnix = w.base.Unix()
 	for i := 0; i < nbrowsers; i++ {
